@@ -74,10 +74,17 @@ class SeismicFileConverter(object):
     def get_blank_header_info(self, seismic, header_detection):
         first_il_header_val = seismic.header[0][segyio.tracefield.TraceField.INLINE_3D]
         n_traces = seismic.tracecount if seismic.structured or first_il_header_val == 0 else 0
+        first_trace, last_trace = 0, -1
+        if type(self.geom) is Geometry3d:
+            # Possibly a window of the input: header arrays hold (and detection looks at) the windowed traces only
+            n_traces = len(self.geom.ilines) * len(self.geom.xlines)
+            first_trace = self.geom.ilines[0] * len(seismic.xlines) + self.geom.xlines[0]
+            last_trace = self.geom.ilines[-1] * len(seismic.xlines) + self.geom.xlines[-1]
         if header_detection == 'heuristic':
             return HeaderwordInfo(n_traces=n_traces,
                                   seismicfile=seismic,
-                                  header_detection=header_detection)
+                                  header_detection=header_detection,
+                                  first_trace=first_trace, last_trace=last_trace)
         elif header_detection in ['thorough', 'exhaustive']:
             return HeaderwordInfo(n_traces=n_traces,
                                   variant_header_list=segyio.TraceField.enums()[0:89],
